@@ -95,6 +95,7 @@ DEFAULT_PROFILE = {
     "index_alias_calls": 0,    # percent: call passes k and a(..k..) together
     "ensure": None,            # intrinsic name that must occur (s_ensure)
     "scalar_loopvar": 0,       # percent: a DO uses the visible local `it`
+    "exit_with_print": 0,      # percent: EXIT/CYCLE preceded by a PRINT
 }
 
 
@@ -1224,6 +1225,13 @@ class Gen:
             if self.loop_kinds[-1] == "do" else "exit"
         self.features.add("codeblock")
         self.features.add(word)
+        if self.int(1, 100) <= self.prof.get("exit_with_print", 0):
+            # a multi-statement CodeBlock: another unsupported statement
+            # directly before the EXIT/CYCLE
+            self.features.add("print_then_" + word)
+            return [f"if {self.cond()} then",
+                    f"  print *, 'v', {self.int_expr(1)[0]}",
+                    f"  {word}", "end if"]
         return [f"if {self.cond()} {word}"]
 
     def s_print(self):
